@@ -276,7 +276,8 @@ func xmlAddKeyElements(s Entry, parent *etree.Element) {
 		if existingElem == nil {
 			// and finally we create the patheleme key attributes
 			parent.CreateElement(schemaKeys[i]).SetText(treeElem.PathName())
-			treeElem = treeElem.GetParent()
 		}
+		// one level up per key, whether or not the key element was already present
+		treeElem = treeElem.GetParent()
 	}
 }
